@@ -243,9 +243,22 @@ pub fn table(seed: u64, k: usize, nkeys: usize, portable_only: bool) -> Vec<TCas
 				spec.kid = KidSpec::Pre(rng.bytes(20));
 			}
 		}
+		if !spec.sans.is_empty() && rng.chance(1, 3) {
+			// the same name twice: still the caller's list, to be written and reported as given
+			let d = spec.sans[0].clone();
+			spec.sans.push(d);
+		}
 		let kind = match idx % 4 {
 			0 => TKind::SelfSigned,
-			1 => TKind::Issued { issuer: idx / 4 % 2 },
+			1 => {
+				// crypto builds: also the two issuers that share issuer 0's key but derive their key
+				// identifier by hashing (SHA-256 / SHA-384), with the authority key identifier requested
+				let issuer = if portable { idx / 4 % 2 } else { idx / 4 % 4 };
+				if issuer >= 2 {
+					spec.use_aki = true;
+				}
+				TKind::Issued { issuer }
+			},
 			2 => {
 				spec.serial = None;
 				spec.is_ca = IsCaSpec::No;
@@ -332,6 +345,22 @@ pub fn issuers(keys: &[TKey]) -> Result<Issuers, String> {
 		let c = s.to_rcgen(None).self_signed(&keys[ki].kp).map_err(|e| format!("issuer {}: {}", i, e))?;
 		certs.push(c);
 		ks.push(ki);
+	}
+	// two more CA certificates for the SAME key as issuer 0, with hashed key identifiers: whatever is
+	// remembered per key (and not per issuer certificate) shows as a wrong authority key identifier
+	#[cfg(feature = "crypto")]
+	for (i, kid) in [KidSpec::Sha256, KidSpec::Sha384].into_iter().enumerate() {
+		let mut s = ParamSpec::minimal();
+		s.subject = vec![
+			AttrSpec { ty: DnTy::Org, kind: StrKind::Utf8, text: format!("verif issuer sharing key {}", i) },
+			AttrSpec { ty: DnTy::Cn, kind: StrKind::Utf8, text: "renewed ca".into() },
+		];
+		s.is_ca = IsCaSpec::Ca(None);
+		s.serial = Some(vec![0x43, i as u8]);
+		s.kid = kid;
+		let c = s.to_rcgen(None).self_signed(&keys[ks[0]].kp).map_err(|e| format!("issuer {}: {}", i + 2, e))?;
+		certs.push(c);
+		ks.push(ks[0]);
 	}
 	Ok(Issuers { certs, keys: ks })
 }
